@@ -616,10 +616,10 @@ func runC06(r *core.Run) {
 	r.Assumptions = []string{"a JPEG whose first-arriving ICC chunk after SOF says '1 of 1' is a self-consistent complete profile; later contradictory chunks lie beyond what the extractor needs to read (C18) and such damage variants are not generated"}
 	gens := c06Files(r.Seed, r.Thorough())
 	if r.Thorough() {
-		// the whole generator again under forty derived seeds (other names, placements, orders,
+		// the whole generator again under 120 derived seeds (other names, placements, orders,
 		// damage positions, payload dressings); the multi-MiB files only once
 		c06SkipBig = true
-		for k := int64(1); k <= 40; k++ {
+		for k := int64(1); k <= 120; k++ {
 			gens = append(gens, c06Files(r.Seed*1000+k, false)...)
 		}
 		c06SkipBig = false
